@@ -177,7 +177,9 @@ func vmRandomRuns(P *Program, cfg *RunCfg, n int, seed int64, dir string) ([]*di
 		}
 		dv := &diffVector{kind: kind, observes: append([]string(nil), ex.lastObserves...)}
 		for _, v := range rep.Violations {
-			dv.fails = append(dv.fails, v.Label)
+			if !rep.VMOnly[v.Label] {
+				dv.fails = append(dv.fails, v.Label)
+			}
 		}
 		model := map[string]string{}
 		for k, v := range ex.concModel {
@@ -290,6 +292,18 @@ func nativeConfirm(P *Program, cfg *RunCfg, replayPath, label string) (bool, str
 	}
 	if strings.HasPrefix(label, "panic:") && nr.panicked != "" {
 		return true, "native: " + nr.panicked
+	}
+	if strings.HasPrefix(label, "panic:") && !nr.ended {
+		t := raw
+		if i := strings.Index(t, "fatal error"); i >= 0 {
+			t = t[i:]
+		} else if i := strings.Index(t, "panic:"); i >= 0 {
+			t = t[i:]
+		}
+		if len(t) > 200 {
+			t = t[:200]
+		}
+		return true, "native: the process died: " + strings.ReplaceAll(t, "\n", " | ")
 	}
 	return false, fmt.Sprintf("native run: fails=%v panicked=%q", nr.fails, nr.panicked)
 }
